@@ -311,20 +311,28 @@ def nest_spec(draw, topo, depth, bind, level=0, permute_names=True, ext_consumed
     # inner select: keep everything consumed outside, drop a drawn subset of the rest
     select = None
     droppable = [o for o in produced if o not in outside_consumed]
+    dropped = []
     if droppable and prob(draw, 0.3):
         dropped = [o for o in droppable if draw(st.booleans())]
         if dropped and len(dropped) < len(produced):
             select = [pi.get(o, o) for o in produced if o not in dropped]
             hidden += dropped
-            # inner nodes outside the backward closure of the kept outputs do not contribute to the wrapper's inputs
-            lvl = [x if x["k"] != "graph" else {"k": "func", "name": x["name"], "params": x["flat_inputs"], "outs": x["flat_outputs"], "_inner": x}
-                   for x in S_nodes]
-            sp = ref.producers(lvl)
-            keep = {sp[o]["name"] for o in produced if o not in dropped and o in sp}
-            closure = ref.ancestors_closure(lvl, keep)
-            for x in lvl:
-                if x["name"] not in closure:
-                    inactive += [nm for nm in _func_names(x.get("_inner", x)) if nm not in inactive]
+        else:
+            dropped = []
+    if select is None and produced and prob(draw, 0.25):
+        # an explicit inner select that names EVERY output (in a drawn order): hides no output, but takes the selection code path
+        # (and, like every selection, leaves inner nodes that feed no selected output out of the run)
+        select = [pi.get(o, o) for o in draw(st.permutations(produced))]
+    if select is not None:
+        # inner nodes outside the backward closure of the kept outputs do not contribute to the wrapper's inputs
+        lvl = [x if x["k"] != "graph" else {"k": "func", "name": x["name"], "params": x["flat_inputs"], "outs": x["flat_outputs"], "_inner": x}
+               for x in S_nodes]
+        sp = ref.producers(lvl)
+        keep = {sp[o]["name"] for o in produced if o not in dropped and o in sp}
+        closure = ref.ancestors_closure(lvl, keep)
+        for x in lvl:
+            if x["name"] not in closure:
+                inactive += [nm for nm in _func_names(x.get("_inner", x)) if nm not in inactive]
     inner_bind = {}
     has_default = {p for x in topo for p in x.get("defaults", {})}
     for p in list(bind):
